@@ -381,7 +381,7 @@ func Parse(block []rune, pos int) (pt ParsedTokens, syntaxHighlighted string) {
 				pt.Loc = i
 				syntaxHighlighted += string(block[i])
 				if (pt.ExpectParam && len(pt.Parameters) == 0) ||
-					(len(pt.Parameters) == 1 && strings.Trim(pt.Parameters[0], "+-*/:?|.") == "") {
+					(len(pt.Parameters) == 1 && strings.Trim(pt.Parameters[0], "+-*/:?|. \t") == "") {
 					// `name = value`, `name += value`, etc are assignments
 					pt.Unsafe = true
 				}
